@@ -313,7 +313,7 @@ def run_shard(spec, emit):
     tier, seed, shard, nshards = spec["tier"], spec["seed"], spec["shard"], spec["nshards"]
     sys.setswitchinterval(1e-5)
     groups = [g for i, g in enumerate(gen_groups(tier, seed)) if i % nshards == shard]
-    deadline = time.monotonic() + (95 if tier == "quick" else 2400)
+    deadline = time.monotonic() + (95 if tier == "quick" else 300)
     samples = 0
     for gi, group in enumerate(groups):
         if time.monotonic() > deadline:
